@@ -386,6 +386,7 @@ func c20Custom(t *testing.T, sc *world.Scenario, out *Outcome) {
 		out.violate(P, "metric-label-set", "metric-label-set name="+name, "metric emitted with different kinds / label-name sets: %s", bad)
 	}
 	out.Fired = w.KV.Fired
+	reportLockLeaks("C20", w, out)
 	c20MetricPanics(sn.M, out)
 	for _, f := range w.Fatals {
 		// klog.Fatal ends a real node's process
